@@ -774,7 +774,9 @@ class ConfigurableReference:
       return '%' + '/'.join(self._scopes)
     maybe_parens = '()' if self._evaluate else ''
     import_manager = _parse_context().import_manager
-    if import_manager is not None and import_manager.dynamic_registration:
+    if import_manager is not None:
+      # Rendering a config string: the name as given may have become ambiguous
+      # (or needlessly long) since the reference was created.
       selector = import_manager.minimal_selector(self._configurable)
     else:
       selector = self.selector
